@@ -129,12 +129,18 @@ def run(R):
                 sel = sorted(g.r.sample(sel, 14))
             for j in sel:
                 ev = evs[j]
-                for signame, count in (("SIGINT", 1), ("SIGTERM", 1), ("SIGINT", 2)) if not quick or j % 3 == 0 else (("SIGINT", 1), ("SIGTERM", 1)):
+                variants = (("SIGINT", 1), ("SIGTERM", 1), ("SIGINT", 2), ("SIGTERM", 2), ("SIGINT+SIGTERM", 2))
+                if quick and j % 2:
+                    variants = (("SIGINT", 1), ("SIGTERM", 1))
+                for signame, count in variants:
                     pr2 = prepare(tree, search, replace, what)
                     if pr2 is None:
                         continue
                     sb2, args2 = pr2
-                    inj = f"{ev.sys}:signal={signame}:when={ev.ordinal}" + (f"..{ev.ordinal + 1}" if count == 2 else "")
+                    if signame == "SIGINT+SIGTERM":
+                        inj = [f"{ev.sys}:signal=SIGINT:when={ev.ordinal}", f"{ev.sys}:signal=SIGTERM:when={ev.ordinal + 1}"]
+                    else:
+                        inj = f"{ev.sys}:signal={signame}:when={ev.ordinal}" + (f"..{ev.ordinal + 1}" if count == 2 else "")
                     rc2, o2, e2, tr2 = inject.strace_run(sb2, args2, inject=inj)
                     after = sb2.snapshot()
                     hist2 = len(sb2.history() or [])
@@ -144,7 +150,7 @@ def run(R):
                     stats["by_command"][what] = stats["by_command"].get(what, 0) + 1
                     stats["signals"][signame] = stats["signals"].get(signame, 0) + 1
                     R.case(("sig", what, i, j, signame, count), nontrivial=True)
-                    delivered = f"--- {signame}" in tr2
+                    delivered = any(f"--- {x}" in tr2 for x in signame.split("+"))
                     if not delivered:
                         continue
                     if len(R.coverage["samples"]) < 3:
